@@ -11,15 +11,15 @@ from ..common import rng_for
 
 LEVEL = "exploration"
 NEEDS = ["harness", "harness:ovf"]
-RULE = ("all shapes with 1..A axes and lengths 1..5 (A=4 quick, 5 thorough), each on the release and the "
+RULE = ("all shapes with 1..A axes and lengths 1..5 (A=4 quick, 5 thorough), plus 41x41x41 and 17x17x17x17 (more than 2^16 elements), each on the release and the "
         "overflow-checked harness; per shape: iter_indices trace past exhaustion, iter_indices call histories mixing next() and nth(k) stepping past the end, get() on every valid index and on "
         "wrong-length/out-of-range indices, get_axis on every (axis, position) incl. axis d, d+1, usize::MAX and "
         "position len, len+1, usize::MAX, every view iterated 2*len+5 times with len() before each call, "
-        "iter_axis traces, sum(axis); call histories that end in a consuming std adaptor: k x next() (k in 0,1,2,3,len/2,len-1,len,len+1) followed by count / last / fold / for_each / collect / nth(1) / step_by(2) / skip(1).count() / size_hint on every view iterator, on iter_indices and on iter_axis. A shape is non-trivial when it has >= 2 elements; distinct = distinct (shape, build).")
+        "iter_axis traces, sum(axis); get_mut() on the same queries; the same array reached through clone, clone_from into targets of another shape, from_iter, new_unchecked, from_zeros + fill, from_element + iter_mut, IndexMut fill - each probed with get on every query, a sum and a view; call histories that end in a consuming std adaptor: k x next() (k in 0,1,2,3,len/2,len-1,len,len+1) followed by count / last / fold / for_each / collect / nth(1) / step_by(2) / skip(1).count() / size_hint on every view iterator, on iter_indices and on iter_axis. A shape is non-trivial when it has >= 2 elements; distinct = distinct (shape, build).")
 ASSUMPTIONS = ["array contents are f64 flat positions < 2^53, so element identity is exact",
                "a panic is observed through catch_unwind in the harness (panic=unwind build)"]
 EXHAUSTIVE = {"quick": True, "thorough": True}
-FLOORS = {"quick": {"evaluations": 1000, "distinct_nontrivial": 700, "counts": {"views_iterated": 5000, "terminal_adaptor_calls": 200000}},
+FLOORS = {"quick": {"evaluations": 1000, "distinct_nontrivial": 700, "counts": {"views_iterated": 5000, "terminal_adaptor_calls": 200000, "history_probes": 10000, "get_mut_calls": 100000, "big_arrays": 4}},
           "thorough": {"evaluations": 6000, "distinct_nontrivial": 6000, "counts": {"views_iterated": 50000, "terminal_adaptor_calls": 1000000}}}
 
 
@@ -40,6 +40,9 @@ def plan(tier, seed):
     for kind in ("release", "ovf"):
         for i in range(nsh):
             plans.append({"name": "%s-%d" % (kind, i), "kind": kind, "shapes": allshapes[i::nsh]})
+        # beyond the exhaustive bound: two arrays with more than 2^16 elements (views, axis iteration, sums, indexing; no adaptor histories)
+        plans.append({"name": "%s-big-a" % kind, "kind": kind, "shapes": [[41, 41, 41]], "big": True})
+        plans.append({"name": "%s-big-b" % kind, "kind": kind, "shapes": [[17, 17, 17, 17]], "big": True})
     return plans
 
 
@@ -188,6 +191,48 @@ def check_shape(S, shape, res, kind, queries, nvalid, signed=False):
         if r != exp:
             bad("get:value" if qi < nvalid else "get:invalid-not-none", "get(%r) = %r, expected %r" % (q, r, exp))
     S.count("get_calls", len(queries))
+    # 2b. get_mut answers like get
+    for qi, (q, r) in enumerate(zip(queries, res.get("get_mut") or [])):
+        S.count("get_mut_calls")
+        if is_panic(r):
+            bad("panic:get_mut", "get_mut(%r) panicked: %s" % (q, r["panic"]))
+            continue
+        exp = flat_of[tuple(q)] if qi < nvalid else None
+        if r != exp:
+            bad("get_mut:value" if qi < nvalid else "get_mut:invalid-not-none", "get_mut(%r) = %r, expected %r" % (q, r, exp))
+    # 2c. the same array reached through other construction / copy histories
+    hist = res.get("histories")
+    if is_panic(hist):
+        bad("panic:histories", "construction histories panicked: %s" % hist["panic"])
+    elif hist:
+        last = d - 1
+        acc = {}
+        for f, ix in enumerate(idxs):
+            key = tuple(x for j, x in enumerate(ix) if j != last)
+            acc[key] = acc.get(key, 0) + flat_of[tuple(ix)]
+        rest = [m for j, m in enumerate(shape) if j != last]
+        exp_probe = {"shape": shape, "data": [flat_of[tuple(ix)] for ix in idxs],
+                     "get": [flat_of[tuple(q)] if qi < nvalid else None for qi, q in enumerate(queries)],
+                     "sum_last": {"shape": rest, "data": [acc[k] for k in itertools.product(*[range(m) for m in rest])]} if d > 1 else None,
+                     "view0_last": [flat_of[tuple(ix)] for ix in idxs if ix[0] == shape[0] - 1]}
+        for name, pr in hist.items():
+            S.count("history_probes")
+            if is_panic(pr):
+                bad("panic:history:%s" % name, "array obtained via %s: probing it panicked: %s" % (name, pr["panic"]))
+                continue
+            if "err" in pr:
+                bad("history:%s" % name, "array obtained via %s: construction failed: %s" % (name, pr["err"]))
+                continue
+            for key, e in exp_probe.items():
+                if key == "sum_last" and d == 1:
+                    continue
+                gval = pr.get(key)
+                if is_panic(gval):
+                    bad("panic:history:%s:%s" % (name, key), "array obtained via %s: %s panicked: %s" % (name, key, gval["panic"]))
+                elif gval != e:
+                    diff = next(((k_, a_, b_) for k_, (a_, b_) in enumerate(zip(gval, e)) if a_ != b_), None) if isinstance(gval, list) and isinstance(e, list) and len(gval) == len(e) else None
+                    bad("history:%s:%s" % (name, key), "array obtained via %s answers differently: %s = %s, expected %s%s" % (
+                        name, key, str(gval)[:120], str(e)[:120], (" (first difference at %d: %r vs %r; query %r)" % (diff[0], diff[1], diff[2], queries[diff[0]] if key == "get" else None)) if diff else ""))
     # 3. views
     for v in res["views"]:
         a, i, r = v["axis"], v["pos"], v["r"]
@@ -288,7 +333,10 @@ def shard(S, p):
         q, nv = get_queries(shape, rng)
         hs = index_histories(shape, rng)
         sg = p.get("signed", (sum(shape) + len(shape)) % 2 == 1)       # about half of the shapes hold mixed-sign data
-        reqs.append({"op": "array", "shape": shape, "get": q, "extra": 3, "index_histories": hs, "signed": sg, "terminals": True})
+        big = bool(p.get("big"))
+        reqs.append({"op": "array", "shape": shape, "get": q, "extra": 3, "index_histories": hs, "signed": sg, "terminals": not big, "histories": not big})
+        if big:
+            S.count("big_arrays")
         metas.append((q, nv, hs, sg))
     results = harness.run_all(reqs, kind=p["kind"])
     for shape, res, (q, nv, hs, sg) in zip(p["shapes"], results, metas):
